@@ -7,20 +7,20 @@ Import ListNotations.
 (* A node conforms to a referenced shape exactly when validating it against that shape
    yields no results - for every environment (recursive or not), every option setting,
    every evaluation path and depth. *)
-Theorem C04_conform_iff_empty : forall o g E fuel ep s foci c rs,
-  vshape fuel o g E false ep s foci = Ok (c, rs) -> (c = true <-> rs = []).
-Proof. intros o g E fuel ep s foci c rs H. exact (vshape_good o g E fuel ep s foci (c, rs) H). Qed.
+Theorem C04_conform_iff_empty : forall trig o g E fuel ep s foci c rs,
+  vshape trig fuel o g E false ep s foci = Ok (c, rs) -> (c = true <-> rs = []).
+Proof. intros trig o g E fuel ep s foci c rs H. exact (vshape_good trig o g E fuel ep s foci (c, rs) H). Qed.
 Print Assumptions C04_conform_iff_empty.
 
 (* and every component hands back `conforms` exactly when it reports nothing *)
-Theorem C04_component_conform_iff_empty : forall nested g E s fvs ep c cr,
-  nested_good nested -> evalc nested g E s fvs ep c = Ok cr -> (fst cr = true <-> snd cr = []).
+Theorem C04_component_conform_iff_empty : forall trig nested g E s fvs ep c cr,
+  nested_good nested -> evalc trig nested g E s fvs ep c = Ok cr -> (fst cr = true <-> snd cr = []).
 Proof. exact evalc_good. Qed.
 Print Assumptions C04_component_conform_iff_empty.
 
 (* without severity waivers the verdict is 'conforms' exactly when there is no result *)
-Theorem C04_verdict_default : forall o sg g E c rs,
+Theorem C04_verdict_default : forall trig o sg g E c rs,
   allow_infos o = false -> allow_warnings o = false ->
-  validate o sg g E = Ok (c, rs) -> (c = true <-> rs = []).
+  validate trig o sg g E = Ok (c, rs) -> (c = true <-> rs = []).
 Proof. exact validate_verdict_default. Qed.
 Print Assumptions C04_verdict_default.
